@@ -290,6 +290,18 @@ func init() {
 		return out
 	})
 	reg("(*regexp.Regexp).NumSubexp", func(fr *frame, args []value) value { return mkI(hostRe(args[0]).re.NumSubexp()) })
+	reg("(*regexp.Regexp).LiteralPrefix", func(fr *frame, args []value) value {
+		p, complete := hostRe(args[0]).re.LiteralPrefix()
+		return tuple{mkStr(p), ConstBool(complete)}
+	})
+	reg("(*regexp.Regexp).String", func(fr *frame, args []value) value { return mkStr(hostRe(args[0]).re.String()) })
+	reg("(*regexp.Regexp).SubexpNames", func(fr *frame, args []value) value {
+		var out []value
+		for _, n := range hostRe(args[0]).re.SubexpNames() {
+			out = append(out, mkStr(n))
+		}
+		return out
+	})
 }
 
 var opaqueIndex = Var("v_opaque_regex_index", BV(64))
